@@ -469,20 +469,32 @@ class Gen:
 def gen_valid(rng: random.Random, P: Optional[dict] = None, tries: int = 12) -> dict:
     """a design of the ordinary stream; `tag` says what analysis.classify thinks of it"""
     P = P or {}
-    d = None
-    for _ in range(tries):
+    cap = P.get("max_chains", 150)
+    best = None
+    fallback = None
+    for k in range(tries + 8):
+        if k >= tries and (best is not None or fallback is not None):
+            break
         sub = random.Random(rng.getrandbits(48))
         d = Gen(sub, P).build()
-        c = classify(Desc(d))
-        if c["must"] == "accept":
-            d["tag"] = "valid"
+        desc = Desc(d)
+        # the number of call chains is exponential in the depth of shared call DAGs: keep designs small
+        # enough for the (quadratic-in-chains) analyses of manager, model and monitors
+        if not desc.has_cycle() and sum(len(desc.chains(b)) for b in desc.order) > cap:
+            fallback = fallback or d
+            continue
+        c = classify(desc)
+        d["tag"] = "valid" if c["must"] == "accept" else ("grey" if c["must"] is None else "invalid")
+        best = d
+        if d["tag"] == "valid" or rng.random() < 0.08:  # keep a few not-clean designs in the ordinary stream
             break
-        d["tag"] = "grey" if c["must"] is None else "invalid"
-        if rng.random() < 0.08:  # keep a few not-clean designs in the ordinary stream
-            break
-    d["inject"] = None
-    d["vseed"] = rng.getrandbits(32)
-    return d
+    if best is None:
+        best = fallback
+        c = classify(Desc(best))
+        best["tag"] = "valid" if c["must"] == "accept" else ("grey" if c["must"] is None else "invalid")
+    best["inject"] = None
+    best["vseed"] = rng.getrandbits(32)
+    return best
 
 
 def _bodies(design):
